@@ -57,6 +57,7 @@ def s_layout(hist):
 NEW_OPS = ("extract", "span", "spantrack", "add", "step", "pattern", "gt", "lt", "slice")   # return a new track
 INPLACE_OPS = ("sort", "insert", "insertat", "addobs", "remove", "removeobs", "removefirst", "removelast", "pop")
 READ_OPS = ("get", "read", "column")
+LATE, LATE_VAL = "w", 7          # a feature created on ONE track after the operators (last operation of a session), same value everywhere
 
 
 def reads_from_raw(pts, names, cols):
@@ -312,6 +313,10 @@ class P(Prop):
             names = src["names"] if (kind != "add" or src["names"] == pool[op[2]]["names"]) else []
             pool.append({"ids": list(want), "names": list(names)})
             return True
+        if kind == "create":
+            if n and LATE not in src["names"]:
+                src["names"] = src["names"] + [LATE]
+            return False            # always the last operation of a session
         if kind in READ_OPS:
             if kind == "get":
                 return -n <= op[2] < n
@@ -441,6 +446,10 @@ class P(Prop):
                            ["slice", 0, 1, None, 2], ["sort", 0], ["insert", 0, 900, 4], ["insertat", 0, 1, 900, 4], ["addobs", 0, 900, 4],
                            ["remove", 0, [2, 0]], ["removeobs", 0, 1], ["removefirst", 0], ["removelast", 0], ["pop", 0, 2]):
                     nxt = 1 if op[0] in NEW_OPS else 0
+                    if nxt:
+                        # a feature created afterwards on the result / on the source must not appear in the other's table
+                        S(T, [op, ["create", 1]])
+                        S(T, [op, ["create", 0]])
                     S(T, [op, rng.choice([["gt", nxt, 1], ["step", nxt, 2], ["sort", nxt], ["slice", nxt, None, -1, None], ["insert", nxt, 901, rng.randrange(9)]])])
         # ---- (c) random chains: the result of one operator is an operand of the next
         for _ in range(4000 if tier == "quick" else 40000):
@@ -452,11 +461,18 @@ class P(Prop):
                 tracks.append({"times": times, "hist": hist})
                 pool.append({"ids": [[s_tag(k, i), v] for i, v in enumerate(times)], "names": s_layout(hist)[0]})
             ops = []
+            alive = True
             for j in range(rng.randrange(2, 8)):
                 op = self.random_op(rng, pool, 900 + j, scope=rng.random() < 0.93)
                 ops.append(op)
                 if not self.sim_op(pool, op, self.designate):
+                    alive = False
                     break
+            if alive and rng.random() < 0.3:
+                # (not on a track holding the same observation twice, e.g. t + t: the one shared object would get the column twice)
+                cand = [k for k, t in enumerate(pool) if t["ids"] and len({r[0] for r in t["ids"]}) == len(t["ids"])]
+                if cand:
+                    ops.append(["create", rng.choice(cand)])
             S(tracks, ops)
         return out
 
@@ -684,10 +700,23 @@ class P(Prop):
             out["src2"] = self.track_dict(obs_rows(case["times2"], case["names2"], 50), case["names2"])
         return out
 
+    @staticmethod
+    def _late_view(case, out):
+        """sessions ending with a late creation: the model has no shared observations, so in that last step the RAW feature lists of
+        the other tracks are left out of the comparison (what they read by name is compared)"""
+        if not (case["ops"] and case["ops"][-1][0] == "create" and len(out.get("steps", [])) == len(case["ops"])):
+            return out
+        k = case["ops"][-1][1]
+        last = out["steps"][-1]
+        pool = [d if i == k else dict(d, pts=[r[:2] for r in d["pts"]]) for i, d in enumerate(last["pool"])]
+        return dict(out, steps=out["steps"][:-1] + [dict(last, pool=pool)])
+
     def compare(self, case, impl_out, model_out):
         if impl_out == model_out:
             return None
         k = case["kind"]
+        if k == "session" and "init" in impl_out and self._late_view(case, impl_out) == self._late_view(case, model_out):
+            return None
         # freedom left by the property: the place of the new observation among EQUAL timestamps, the order of equal
         # timestamps after sort -> the implementation's answer is validated by the spec, not required to equal the model's
         if k == "sort" and "err" not in impl_out and len(set(case["times"])) < len(case["times"]):
@@ -779,6 +808,8 @@ class P(Prop):
             return ["value", self.read(tr, op[2], op[3], op[4])]
         elif kind == "column":
             return ["values", list(tr[op[2]])]
+        elif kind == "create":
+            tr.createAnalyticalFeature(LATE, LATE_VAL)
         else:
             raise ValueError(kind)
         return "done"
@@ -836,6 +867,8 @@ class P(Prop):
             return "read/%d/%s/%d" % (k, op[2], op[3])
         if kind == "column":
             return "column/%d/%s" % (k, op[2])
+        if kind == "create":
+            return "create/%d/%s/%s" % (k, LATE, ",".join([str(LATE_VAL)] * 80))
         raise ValueError(kind)
 
     def requests_session(self, case):
@@ -851,7 +884,7 @@ class P(Prop):
         pool = [{"pts": [[s_tag(k, i), v] for i, v in enumerate(sp["times"])], "names": [], "cols": [], "reads": {}} for k, sp in enumerate(case["tracks"])]
         out = {"steps": []}
         steps = [] if r == "_" else r.split(";")
-        if len(steps) != nbuild + len(case["ops"]):
+        if len(steps) != nbuild + len(case["ops"]) and not (steps and steps[-1].startswith("err:")):
             raise ValueError("%d steps for %d operations" % (len(steps), nbuild + len(case["ops"])))
 
         def rd(x):
@@ -940,7 +973,7 @@ class P(Prop):
                 own[op[tag]] = {nm: s_val(op[tag], nm) for nm in NAMES}
 
         def ownf(tag, nm):
-            return own.get(tag, {}).get(nm)
+            return LATE_VAL if nm == LATE else own.get(tag, {}).get(nm)
         for k, d in enumerate(out["init"]):
             m = self.reads_own(d, ownf, "initial track %d" % k)
             if m:
@@ -991,6 +1024,26 @@ class P(Prop):
             return None
         if len(post) != len(pre):
             return "the pool has %d tracks instead of %d" % (len(post), len(pre))
+        if kind == "create":
+            # a feature created on ONE track afterwards: no other track may list it (the tables are copies), and every track reads as
+            # before under the names it lists. (Observations are shared between a track and the tracks extracted from it: their raw
+            # feature lists do grow, which no read by name can see.)
+            view = lambda d: ([r[:2] for r in d["pts"]], d["names"], d["reads"])
+            for i, d in enumerate(pre):
+                if i != k and view(post[i]) != view(d):
+                    return "track %d of the pool was modified: %s became %s" % (i, view(d), view(post[i]))
+            if n == 0 or LATE in src["names"]:
+                return None
+            if any(len(r) - 2 != len(src["names"]) for r in src["pts"]):
+                # the track already holds observations with more columns than names (a sum of tracks with different features has
+                # an empty table, the columns stay): what a creation does there is C01's subject, not this property's
+                return None
+            if err:
+                return "createAnalyticalFeature raised %s" % o
+            res = post[k]
+            if [r[:2] for r in res["pts"]] != ids or res["names"] != src["names"] + [LATE]:
+                return "the track became %s" % (view(res),)
+            return self.reads_own(res, ownf, "the track after the creation")
         if kind in READ_OPS:
             m = unchanged()
             if m:
